@@ -23,6 +23,7 @@ func (s *Subscription) Cancel() error {
 
 	c.subscriptionLock.Lock()
 	defer c.subscriptionLock.Unlock()
+	verifPoint("db.sub.cancel")
 
 	for key, sub := range c.subscriptions {
 		if sub.q == s.q {
